@@ -9,6 +9,7 @@ import (
 func init() {
 	vHarnesses["VerifH_C06_query"] = VerifH_C06_query
 	vHarnesses["VerifH_C06_optimizer"] = VerifH_C06_optimizer
+	vHarnesses["VerifH_C06_marks"] = VerifH_C06_marks
 }
 
 // c06List: list arguments a client can send: absent, empty, one or two strings
@@ -381,4 +382,56 @@ func VerifH_C06_optimizer() {
 	}
 	out := IndexStartOptimize(stmts)
 	vAssert("C06.optimizer.returns", len(out) >= 0)
+}
+
+// VerifH_C06_marks: longer sequences over the steps that create rows without an
+// element and marks that may be unset or unloaded (outNull/inNull, edge steps,
+// as, select of one or two marks, path), on a back end that honours the load
+// hint: nothing ends in a panic or a deadlock, whatever is selected.
+func VerifH_C06_marks() {
+	N := vParam("M", 3)
+	g := c06GraphN(1)
+	var stmts []*gripql.GraphStatement
+	if vChoice("start", 2) == 0 {
+		stmts = append(stmts, sV())
+	} else {
+		stmts = append(stmts, sE())
+	}
+	n := 1 + vChoice("len", N)
+	for i := 0; i < n; i++ {
+		name := "q" + string(rune('0'+i))
+		var s *gripql.GraphStatement
+		switch vChoice(name, 10) {
+		case 0:
+			s = &gripql.GraphStatement{Statement: &gripql.GraphStatement_OutNull{OutNull: vList()}}
+		case 1:
+			s = &gripql.GraphStatement{Statement: &gripql.GraphStatement_InNull{InNull: vList("zz")}}
+		case 2:
+			s = &gripql.GraphStatement{Statement: &gripql.GraphStatement_OutENull{OutENull: vList("zz")}}
+		case 3:
+			s = sOutE()
+		case 4:
+			s = sOut()
+		case 5:
+			s = sAs("m")
+		case 6:
+			s = sAs("u")
+		case 7:
+			s = sSelect("m")
+		case 8:
+			s = sSelect("m", "u")
+		default:
+			s = sInE()
+		}
+		stmts = append(stmts, s)
+	}
+	g.compiler = func(g *vGraph) gdbi.Compiler { return NewCompiler(g, IndexStartOptimize) }
+	pipe, err := g.Compiler().Compile(stmts, nil)
+	if err != nil {
+		vReach("c06.marks.rejected")
+		return
+	}
+	rows := vRunPipe(g, pipe, 2)
+	vReach("c06.marks.ran")
+	vAssert("C06.marks.returns", len(rows) >= 0)
 }
